@@ -87,9 +87,30 @@ struct tag_alloc : kit::counting_allocator<T> {
 };
 kit::AllocLedger* ledger_for_tag(int tag);
 
-// the receiver handed to real adaptors: forwards everything to an rcv_base
+// the receiver handed to real adaptors: forwards everything to an rcv_base.
+// Moving from it is destructive (like a receiver that owns its state through a unique_ptr): whoever queries or completes
+// a moved-from receiver reaches moved_from_rcv(), which reports it.  Receivers are never copied.
+struct moved_rcv final : rcv_base {
+  [[noreturn]] static void bad(const char* what) {
+    vmcrt::fail("C02,C12,C18", "moved-from-receiver", (std::string("a receiver was used after it had been moved from: ") + what).c_str());
+  }
+  void value(int) noexcept override { bad("set_value"); }
+  void error(std::exception_ptr) noexcept override { bad("set_error"); }
+  void done() noexcept override { bad("set_done"); }
+  inplace_stop_token stok() const noexcept override { bad("get_stop_token"); }
+  bool stop_possible() const noexcept override { bad("get_stop_token"); }
+  int sched_tag() const noexcept override { bad("get_scheduler"); }
+  int alloc_tag() const noexcept override { bad("get_allocator"); }
+  int custom() const noexcept override { bad("custom query"); }
+};
+inline rcv_base* moved_from_rcv() { static moved_rcv m; return &m; }
 struct rref {
   rcv_base* r;
+  explicit rref(rcv_base* p) noexcept : r(p) {}
+  rref(rref&& o) noexcept : r(o.r) { o.r = moved_from_rcv(); }
+  rref& operator=(rref&& o) noexcept { r = o.r; if (&o != this) o.r = moved_from_rcv(); return *this; }
+  rref(const rref&) = delete;
+  rref& operator=(const rref&) = delete;
   void set_value(int v) noexcept { r->value(v); }
   void set_value() noexcept { r->value(0); }
   template <class E>
@@ -174,20 +195,37 @@ struct ddone : dyn {
   }
 };
 
-// wrap any real sender S (value int or void) as a node
-template <class S>
+// wrap any real sender S (value int or void) as a node.  Default: every connect copies the sender and connects the copy
+// as an rvalue.  With Ctx::lvalue_connect the node's own sender object is connected as a non-const lvalue every time, the
+// way retry_when / repeat_effect_until / a user holding a sender in a variable do: a connect that steals from its sender
+// (moves a member out of an lvalue) shows up at the second connect.
+bool lvalue_connect_mode();
+template <class S, bool LvalueOk = true>
 struct snode final : node {
-  S s;
+  mutable S s;
   explicit snode(S x) : s(std::move(x)) {}
   struct opimpl final : op_base {
     unifex::connect_result_t<S, rref> o;
     opimpl(const S& s, rcv_base& r) : o(unifex::connect(S(s), rref{&r})) {}
     void start() noexcept override { unifex::start(o); }
   };
-  std::unique_ptr<op_base> connect(rcv_base& r) const override { return std::make_unique<opimpl>(s, r); }
+  template <class SS>
+  struct opimpl_lv_t final : op_base {
+    unifex::connect_result_t<SS&, rref> o;
+    opimpl_lv_t(SS& s, rcv_base& r) : o(unifex::connect(s, rref{&r})) {}
+    void start() noexcept override { unifex::start(o); }
+  };
+  using opimpl_lv = opimpl_lv_t<S>;
+  std::unique_ptr<op_base> connect(rcv_base& r) const override {
+    if constexpr (LvalueOk) { if (lvalue_connect_mode()) return std::make_unique<opimpl_lv>(s, r); }
+    return std::make_unique<opimpl>(s, r);
+  }
 };
 template <class S>
 dyn erase(S s) { return dyn{std::make_shared<snode<S>>(std::move(s))}; }
+// for sender types whose lvalue connect does not compile (a compile-time limitation of the adaptor, not a property)
+template <class S>
+dyn erase_rv(S s) { return dyn{std::make_shared<snode<S, false>>(std::move(s))}; }
 // for move-only senders: a factory that makes a fresh sender for every connect
 template <class F>
 struct fnode final : node {
@@ -223,6 +261,7 @@ struct Ctx {
   std::vector<Pending> pending;
   int start_seq = 0;
   bool defer_sched = false;     // schedule() operations become pending events
+  bool lvalue_connect = false;  // erased nodes connect their sender as a non-const lvalue (see snode)
   int cur_ctx = 0;              // context tag of whoever is running right now (0 = driver / foreign)
   std::map<int, kit::AllocLedger> ledgers;
   int sched_ops_alive = 0;
@@ -233,6 +272,7 @@ struct Ctx {
   LeafInfo& leaf(int id) { if ((int)leaves.size() <= id) leaves.resize(id + 1); leaves[id].id = id; return leaves[id]; }
 };
 
+inline bool lvalue_connect_mode() { return g && g->lvalue_connect; }
 inline Seen observe(rcv_base& r) { return Seen{r.sched_tag(), r.alloc_tag(), r.custom(), r.stop_possible()}; }
 
 // the probe leaf
